@@ -503,3 +503,20 @@ def op_ok(op):
     if op[0] == 'CachePhases':
         return op[2] is None or op[2]
     return True
+
+
+def eval_with_retry(ctx, defs, per_file=350):
+    """ctx.eval_tallies with one retry: in a tree shared with concurrently running checks a dependency
+    (Extracted/Src.vo) may be recompiled under a long run, which makes Model/Cache.vo inconsistent for the case
+    files compiled afterwards; rebuild it and evaluate the failed definitions again"""
+    res = ctx.eval_tallies(HEADER, defs, per_file=per_file)
+    redo = [k for k, x in enumerate(res) if x is None]
+    if redo:
+        from . import common
+        common.run(['make', '-j4', 'Model/Cache.vo'], cwd=common.COQ, timeout=900)
+        res2 = ctx.eval_tallies(HEADER, [defs[k] for k in redo], per_file=per_file)
+        for k, x in zip(redo, res2):
+            res[k] = x
+        ctx.notes.append('%d definitions re-evaluated after rebuilding Model/Cache.vo (%d still failing)'
+                         % (len(redo), sum(1 for x in res2 if x is None)))
+    return res
